@@ -101,6 +101,19 @@ re-assembly into marked weak clones, weight-vector and cubature-name overloads, 
 transitions kept one more level, accessors as first access, raw-pointer co-owner constructor. The round found four more genuine defects
 (all repaired): `sync_X_async().wait()` on a gate without neighbours (C13), RGCR recycled directions surviving `init_numeric` (C07),
 `Permutation::concat` and `DynamicGraph::compose` with the object itself (C19).
+
+**(d) The coverage round.** After the fourth seeding round `tools_cov.py` (gcov builds of the harnesses, quick tier; an audit, not a
+deciding step) listed for every property the functions of its anchor files that were compiled but never executed and the statement
+blocks no harness instantiates. Every entry was either covered by an extended or new harness (again validated by fresh mutants, about
+110 in this round, all caught - several only after the harness author noticed that the first version of the new check could not see
+its own mutant) or named as an exclusion in the harness `spec.assumptions` (printing, statistics, CUDA/MKL back ends, zlib/zfp
+paths, MPI-only branches outside C13, members that do not compile). New binaries of this round: `c12_control`.mpi, `c13_transfer`.mpi,
+`c16_jobs`, `c16_scatter`, `c18_intermesh`. Compiled-but-unexecuted functions in the anchor files after the round: C01 9 (float
+instantiations of destructors / move operators and the abort-only banded transposed kernel), C02 0, C03 0, C04 0, C05 2 (inlined
+setter, forked probe), C06 1, C07 printing only, C09 0, C11 26 (destructor artefacts and listed exclusions), C13 0, C14 0, C19 0,
+C20 0. Genuine defects found by the round and repaired: `GridTransfer::transfer_intermesh_vector` (C18), the adjactor interface of
+`SparseMatrixBanded` for non-square matrices (C02); everything else the round turned up is in code no input of a listed property
+reaches and is recorded as an observation in 9.5 (and was first a false alarm, see 9.6).
 """%(n,nd,tbl,len(missed_first),", ".join(missed_first))
 s=open('/verif/DESIGN.md').read()
 s=s[:s.index('### 9.7')].rstrip()+"\n\n"+txt
